@@ -440,9 +440,21 @@ func inList(l []string, s string) bool {
 
 // ---- generator
 
+// coffLongNames: while set, every generated name is stretched to 33..40 bytes (one object in eight holds long
+// names only: the string table then outgrows any buffer sized from a "typical" name length)
+var coffLongNames bool
+
 func genCoffName(t *rapid.T, label string, used map[string]bool, family []string) string {
 	for i := 0; ; i++ {
 		var name string
+		if coffLongNames {
+			name = "_" + rapid.StringMatching(`[a-z0-9_]{32,39}`).Draw(t, label+"_long")
+			if !used[name] {
+				used[name] = true
+				return name
+			}
+			continue
+		}
 		switch k := rapid.IntRange(0, 5).Draw(t, label+"_k"); {
 		case k == 0 && len(family) > 0:
 			// share a prefix with an existing name
@@ -475,6 +487,8 @@ func genCoffCase(t *rapid.T) CoffCase {
 	}
 	used := map[string]bool{}
 	var names []string
+	coffLongNames = rapid.IntRange(0, 7).Draw(t, "longnames") == 5
+	defer func() { coffLongNames = false }()
 	nl := rapid.IntRange(0, 8).Draw(t, "nlabels")
 	if rapid.IntRange(0, 15).Draw(t, "many") == 0 {
 		nl = rapid.IntRange(20, 45).Draw(t, "nlabels2")
@@ -551,7 +565,7 @@ func genCoffCase(t *rapid.T) CoffCase {
 
 var propC08 = &Prop[CoffCase]{
 	ID:     "C08",
-	Rule:   "WCOFF programs (32-bit, one in five 16-bit; 0..12 statements incl. branches and calls to their labels and occasional 1k/40k/66k reservations) x 0..45 labels (some of them after the last byte of the program) x four orders of the header directives x GLOBAL statements declaring any sub-multiset of them (duplicates, undefined names, names of length 1..40 incl. exactly 8/9 and 18/19, shared prefixes) before and after the code x EXTERN x [FILE] of length 0..40 or absent; oracle: the same source assembled twice in one process gives the same object; strict COFF reader (every offset/count against the file size, aux records counted, string-table length, NUL-terminated long names) + debug/pe + (thorough, sampled) objdump; non-trivial = >= 1 GLOBAL and (a long name or non-empty .text); distinct by source text",
+	Rule:   "WCOFF programs (32-bit, one in five 16-bit; 0..12 statements incl. branches and calls to their labels and occasional 1k/40k/66k reservations) x 0..45 labels (some of them after the last byte of the program) x four orders of the header directives x GLOBAL statements declaring any sub-multiset of them (duplicates, undefined names, names of length 1..40 incl. exactly 8/9 and 18/19, shared prefixes; one object in eight with names of 33..40 bytes only) before and after the code x EXTERN x [FILE] of length 0..40 or absent; oracle: the same source assembled twice in one process gives the same object; strict COFF reader (every offset/count against the file size, aux records counted, string-table length, NUL-terminated long names) + debug/pe + (thorough, sampled) objdump; non-trivial = >= 1 GLOBAL and (a long name or non-empty .text); distinct by source text",
 	Assume: []string{"debug/pe and binutils objdump as independent COFF readers"},
 	Gen:    genCoffCase,
 	Check:  checkC08,
